@@ -24,7 +24,13 @@ def run(ctx):
                       "a word is expanded")
     ctx.rule("R15-4", "run_script (for source) and run_lines (for functions) are called in the shell process: not in a "
                       "post-fork child region, and try_run_func runs before the stage loop")
+    ctx.rule("R15-6", "the positional-parameter pass writes every rewritten word back into the slot it was read from: its "
+                      "hand-written position counter advances exactly once per token and no recorded position is used "
+                      "after the vector's length changed (E-EDITLIST)")
     for crate in ctx.crates:
+        from .. import editlist
+        n_ = editlist.rule(ctx, crate, "R15-6", ["scripting::expand_args_in_tokens"])
+        ctx.floor("R15-6", crate, "positional pass with a token vector", n_, 1)
         func_status(ctx, crate)
         source_status(ctx, crate)
         exit_code(ctx, crate)
